@@ -83,6 +83,7 @@ def run_history(history, budget_s=5):
         elif kind == 'drop':
             handlers.pop(op[1], None)
             gc.collect()
+            log.append(('dropped', op[1]))
         elif kind == 'dispatch':
             log.append(('dispatch', op[1], tuple(op[2])))
             d.dispatch(op[1], *op[2])
@@ -139,6 +140,15 @@ def check_common(history, obs):
             return 'C10', 'callback %s invoked with a missing (None) receiver' % (e[2],)
     if obs['errors']:
         return 'C10', 'unexpected exception from the dispatcher: %s' % obs['errors'][0]
+    # a handler whose last program reference has been dropped is gone: it is never called again
+    # (the dispatcher holds it weakly; T7: CPython finalises it at once)
+    gone = set()
+    for e in obs['log']:
+        if e[0] == 'dropped':
+            gone.add(e[1])
+        elif e[0] == 'call' and e[1] in gone:
+            return 'C10', ('handler %r was called after the program dropped its last reference to it '
+                           '(the dispatcher kept it alive)' % (e[1],))
     return None
 
 
